@@ -48,7 +48,10 @@ ANext(it) ==
   /\ LET I == iters[it]  st == StepOf(I) IN
      /\ iters' = [iters EXCEPT ![it].st = st.it,
                                ![it].n = IF st.res.k = "some" THEN @ + 1 ELSE @,
-                               ![it].out = IF st.res.k = "some" THEN @ \o ItemText(I.kind, st.res.v) ELSE @]
+                               ![it].out = IF st.res.k # "some" THEN @
+                                           ELSE IF I.kind = "ana" /\ st.m # <<>>     \* the text of a Match entry is its span
+                                           THEN @ \o SubSeq(I.s, st.m.st, st.m.en - 1)
+                                           ELSE @ \o ItemText(I.kind, st.res.v)]
      /\ last' = [op |-> IF I.kind = "tok" THEN "tok_next" ELSE "ana_next", res |-> st.res]
   /\ UNCHANGED regs
 ADropIter(it) ==
